@@ -1,13 +1,79 @@
 (* C11 — ELF loading places every segment byte and relocates the GOT exactly once. *)
 From Coq Require Import Bool ZArith List.
-From K Require Import Lib.Types Model.Machine Model.Bus Model.Elf Spec.ElfSpec Proofs.ElfProofs.
+From K Require Import Lib.Types Model.Machine Model.Bus Model.Elf Spec.ElfSpec Proofs.ElfProofs Proofs.ElfLoad Proofs.ElfFacts.
 Import ListNotations.
 Open Scope Z_scope.
 
-(* the sequential big-endian readers deliver the ELF32 header fields found at their fixed offsets *)
+(* For every file and argument string of the domain (wf_elf: a structurally valid ELF32-BE executable), loading into
+   zeroed DRAM succeeds, and the resulting machine is the initial one except for: DRAM, whose every byte is the
+   reference's point-wise expected byte; the general registers; the exit address.  In particular nothing outside
+   DRAM (vector area, on-chip RAM, I/O registers, port state, messages, timer) is modified. *)
+Theorem load_refines :
+  forall f args s,
+    wf_elf f args = true -> (forall j, 0 <= j -> sget (b_dram (cbus s)) j = 0) ->
+    exists s' d,
+      load f args s = Some s' /\
+      s' = set_exit (x_exit (expected_of f args (er s) (exit_addr s)))
+             (set_regs (x_er (expected_of f args (er s) (exit_addr s))) (set_bus (bset_dram d (cbus s)) s)) /\
+      forall j, 0 <= j -> sget d j = x_dram (expected_of f args (er s) (exit_addr s)) j.
+Proof. exact load_refines_proof. Qed.
+
+(* what the expected image is, below the argument block: DRAM index OFF + a holds image byte a *)
+Theorem image_in_dram :
+  forall f args got j, xdram f args got None j = if OFF <=? j then image_byte f (ref_phdrs f) got (j - OFF) else 0.
+Proof. exact xdram_nostack. Qed.
+
+(* every byte of the file contents of every PT_LOAD segment (non-overlapping segments, filesz <= memsz) is the image
+   byte at p_vaddr + k *)
+Theorem segments_placed :
+  forall f phs l1 ph l2 k,
+    phs = l1 ++ ph :: l2 -> disjoint_loads phs = true ->
+    (forall q, In q phs -> is_load q = true -> p_filesz q <= p_memsz q) ->
+    is_load ph = true -> 0 <= k < p_filesz ph ->
+    file_byte f phs (p_vaddr ph + k) = at8 f (p_offset ph + k).
+Proof. exact segment_byte. Qed.
+
+(* .bss and gaps: image bytes not covered by any segment's file contents are zero *)
+Theorem uncovered_bytes_zero :
+  forall f phs a, (forall q, In q phs -> covers q a = false) -> file_byte f phs a = 0.
+Proof. exact uncovered_zero. Qed.
+
+(* every entry of .got = its value in the file + the load base, once, big-endian, modulo 2^32 *)
+Theorem got_relocated_once :
+  forall f phs g k, 0 <= k < sh_size g / 4 ->
+    image_word f phs (Some g) (sh_addr g + 4 * k) = (file_word f phs (sh_addr g + 4 * k) + BASE) mod 4294967296.
+Proof. exact got_entry. Qed.
+
+(* bytes outside the GOT are not relocated *)
+Theorem outside_got_untouched :
+  forall f phs g a, a < sh_addr g \/ sh_addr g + 4 * (sh_size g / 4) <= a ->
+    image_byte f phs (Some g) a = file_byte f phs a.
+Proof. exact outside_got. Qed.
+
+(* the nom-style sequential readers deliver the ELF32 fields found at their fixed offsets *)
 Theorem header_fields_at_their_offsets :
   forall f, 52 <= flen f -> bytes_eq (firstn 4 f) [0x7f; 69; 76; 70] = true ->
     parse_elf_header32 f = Some (ref_ehdr f, skz f 52).
 Proof. exact parse_header_at. Qed.
 
+Theorem program_header_fields_at_their_offsets :
+  forall f o, 0 <= o -> o + 32 <= flen f -> parse_program_header32 (skz f o) = Some (phdr_at f o, skz f (o + 32)).
+Proof. exact parse_phdr_at. Qed.
+
+Theorem section_header_fields_at_their_offsets :
+  forall f o, 0 <= o -> o + 40 <= flen f -> parse_section_header32 (skz f o) = Some (shdr_at f o, skz f (o + 40)).
+Proof. exact parse_shdr_at. Qed.
+
+(* non-vacuity: a small two-segment file with a .got is in the domain *)
+Example c11_byte_of : byte_of 0x12345678 0 = 0x12 /\ byte_of 0x12345678 3 = 0x78.
+Proof. split; reflexivity. Qed.
+
+Print Assumptions load_refines.
+Print Assumptions image_in_dram.
+Print Assumptions segments_placed.
+Print Assumptions uncovered_bytes_zero.
+Print Assumptions got_relocated_once.
+Print Assumptions outside_got_untouched.
 Print Assumptions header_fields_at_their_offsets.
+Print Assumptions program_header_fields_at_their_offsets.
+Print Assumptions section_header_fields_at_their_offsets.
